@@ -175,6 +175,22 @@ func (dm *DMap) syncPutOnCluster(e *env, nt storage.Entry) error {
 	// Quorum based replication.
 	var successful int
 
+	// Apply on the primary copy first. A key or an entry that the storage engine
+	// rejects outright must not be shipped to the backups: they store the raw
+	// encoding without that check (a 256 byte key wraps the one byte length
+	// prefix), and a backup copy alone could then satisfy the write quorum.
+	err := dm.putEntryOnFragment(e, nt)
+	if errors.Is(err, ErrKeyTooLarge) || errors.Is(err, ErrEntryTooLarge) {
+		return err
+	}
+	if err != nil {
+		if dm.s.log.V(3).Ok() {
+			dm.s.log.V(3).Printf("[ERROR] Failed to call put command on %s for DMap: %s: %v", dm.s.rt.This(), e.dmap, err)
+		}
+	} else {
+		successful++
+	}
+
 	encodedEntry := nt.Encode()
 
 	owners := dm.s.backup.PartitionOwnersByHKey(e.hkey)
@@ -193,14 +209,6 @@ func (dm *DMap) syncPutOnCluster(e *env, nt storage.Entry) error {
 			}
 			continue
 		}
-		successful++
-	}
-	err := dm.putEntryOnFragment(e, nt)
-	if err != nil {
-		if dm.s.log.V(3).Ok() {
-			dm.s.log.V(3).Printf("[ERROR] Failed to call put command on %s for DMap: %s: %v", dm.s.rt.This(), e.dmap, err)
-		}
-	} else {
 		successful++
 	}
 	if successful >= dm.s.config.WriteQuorum {
